@@ -500,7 +500,7 @@ var c19BreakPoints = map[string]bool{
 
 // c19Render attaches the list to a decoration point of a parsed file and checks the printed comments.
 func c19Render(c *fw.Ctx, id string, where int, reused bool, d dst.Decorations, fail func(rule, detail string)) {
-	f, err := decorator.Parse("package p\n\nimport \"fmt\"\n\nvar v = 1\n\ntype T struct {\n\tF int\n}\n\nfunc f() {\n\ta = b\n\tg(x, y)\n\tswitch {\n\tcase a:\n\t}\n}\n")
+	f, err := decorator.Parse("package p\n\nimport \"fmt\"\n\nvar v = 1\n\ntype T struct {\n\tF int\n}\n\nfunc f() {\n\ta = b\n\tg(x, y)\n\tswitch {\n\tcase a:\n\t}\n}\n\nvar c1 chan int\n\nvar c2 <-chan int\n\nvar c3 chan<- int\n")
 	if err != nil {
 		return
 	}
@@ -529,6 +529,12 @@ func c19Render(c *fw.Ctx, id string, where int, reused bool, d dst.Decorations, 
 		{"FuncDecl.Type.Params", &fn.Type.Decs.Params}, {"FuncDecl.Type.Func", &fn.Type.Decs.Func},
 		{"FuncDecl.Type.Start", &fn.Type.Decs.Start}, {"FuncDecl.Type.End", &fn.Type.Decs.End},
 		{"FuncDecl.Params", &fn.Decs.Params}, {"FuncDecl.Name", &fn.Decs.Name}, {"FuncDecl.Func", &fn.Decs.Func},
+		// the points of a channel type in each of its three directions
+		{"ChanType(chan).Begin", &f.Decls[4].(*dst.GenDecl).Specs[0].(*dst.ValueSpec).Type.(*dst.ChanType).Decs.Begin},
+		{"ChanType(chan).Arrow", &f.Decls[4].(*dst.GenDecl).Specs[0].(*dst.ValueSpec).Type.(*dst.ChanType).Decs.Arrow},
+		{"ChanType(<-chan).Arrow", &f.Decls[5].(*dst.GenDecl).Specs[0].(*dst.ValueSpec).Type.(*dst.ChanType).Decs.Arrow},
+		{"ChanType(chan<-).Arrow", &f.Decls[6].(*dst.GenDecl).Specs[0].(*dst.ValueSpec).Type.(*dst.ChanType).Decs.Arrow},
+		{"ChanType(<-chan).End", &f.Decls[5].(*dst.GenDecl).Specs[0].(*dst.ValueSpec).Type.(*dst.ChanType).Decs.End},
 	}
 	// a package-qualified identifier under import management (rendered by the hand-written
 	// identifier-to-selector expansion): its three points
